@@ -155,6 +155,30 @@ def run(tier, seed):
         want = {"size": 2, "hop": 2, "alpha": 1, "_private": 2, "order": 3, "lambda_": 4, "ola_x": 5}
         return seen == want and seq_eq(out, x), "a user-defined overlap-add strategy received the options %r, expected %r" % (seen, want)
     R.guard("stft-passes-ola_-options-with-exactly-the-prefix-stripped", {}, custom_ola)
+    # an explicit ola_hop / ola_size (synthesis hop different from the analysis hop) is what the overlap-add gets
+    def synthesis_hop(ola_opts, style):
+        def case():
+            seen = {}
+
+            def my_ola(blk_sig, **kw):
+                seen.update(kw)
+                return overlap_add.list(blk_sig, normalize=False, **kw)
+            x = [Sym.var("x%d" % i) for i in range(12)]
+            common = dict(size=4, hop=2, transform=None, inverse_transform=None, before=None, after=None, ola=my_ola)
+            if style == "direct":
+                out = list(stft(ident, **dict(common, **ola_opts))(list(x)))
+            elif style == "partial":
+                out = list(stft(**dict(common, **ola_opts))(ident)(list(x)))
+            else:
+                out = list(stft(ident, **common)(list(x), **ola_opts))
+            want = {"size": ola_opts.get("ola_size", 4), "hop": ola_opts.get("ola_hop", 2)}
+            blocks = [list(b) for b in Stream(list(x)).blocks(size=4, hop=2)]
+            exp = ola_model(blocks, want["size"], want["hop"], None, False)
+            return seen == want and seq_eq(out, exp), "overlap-add received %r, expected %r (analysis size 4, hop 2, options %r)" % (seen, want, ola_opts)
+        return case
+    for ola_opts in ({"ola_hop": 3}, {"ola_hop": 1}, {"ola_hop": 4}, {"ola_size": 4, "ola_hop": 3}):
+        for style in ("direct", "partial", "call-time-kwargs"):
+            R.guard("stft-explicit-ola_hop-and-ola_size-reach-the-overlap-add", {"options": ola_opts, "style": style}, synthesis_hop(ola_opts, style))
     R.guard("stft-unknown-keyword-refused", {}, lambda: (_raises(lambda: list(stft(ident, size=2, transform=None, inverse_transform=None, before=None, after=None, ola=overlap_add.list, foo=1)([1, 2])), "TypeError"), "unknown keyword must raise TypeError"))
     R.guard("stft-hop>size-refused", {}, lambda: (_raises(lambda: list(stft(ident, size=2, hop=3, transform=None, inverse_transform=None, before=None, after=None, ola=overlap_add.list)([1, 2])), "ValueError"), "hop > size must raise ValueError"))
     return R.result("sizes <= 6, hop <= size (12 pairs), 0..4 blocks of symbolic samples, windows none/list/callable/generator with rational values, normalize on/off; STFT identity wrapper in 4 calling styles")
